@@ -848,3 +848,130 @@ func BadSortedKeysFiltered(d *D, files map[string][]byte) error {
 	d.prev = &v
 	return nil
 }
+
+// ---- loops over literal slices, callbacks, value+flag ---------------------------------
+
+type D2 struct {
+	base, target, targetDir string
+	prev                    string
+	hasPrev                 bool
+}
+
+func fresh2(d *D2) string {
+	return filepath.Join(d.base, fmt.Sprintf("%d-%s", time.Now().UnixNano(), d.targetDir))
+}
+
+func locked(f func() error) error { return f() }
+
+// GoodLiteralLoopsFlag: directories made by a loop over a literal slice, phases run as
+// callbacks of a helper through a literal slice of closures, previous version as value+flag.
+func GoodLiteralLoopsFlag(d *D2, files map[string][]byte) error {
+	v := fresh2(d)
+	tmp := d.target + ".new"
+	fill := func() error {
+		for _, dir := range []string{d.base, v} {
+			if err := os.MkdirAll(dir, 0o755); err != nil {
+				return err
+			}
+		}
+		for n, b := range files {
+			if err := os.WriteFile(filepath.Join(v, n), b, 0o600); err != nil {
+				return err
+			}
+		}
+		return nil
+	}
+	swapIn := func() error {
+		if err := os.Remove(tmp); err != nil && !errors.Is(err, fs.ErrNotExist) {
+			return err
+		}
+		if err := os.Symlink(v, tmp); err != nil {
+			return err
+		}
+		return os.Rename(tmp, d.target)
+	}
+	for _, step := range []func() error{fill, swapIn} {
+		if err := locked(step); err != nil {
+			return err
+		}
+	}
+	if d.hasPrev {
+		if err := os.RemoveAll(d.prev); err != nil {
+			return err
+		}
+	}
+	d.prev, d.hasPrev = v, true
+	return nil
+}
+
+// BadLiteralLoopOrder: the same with the phases listed in the wrong order.
+func BadLiteralLoopOrder(d *D2, files map[string][]byte) error {
+	v := fresh2(d)
+	tmp := d.target + ".new"
+	fill := func() error {
+		for _, dir := range []string{d.base, v} {
+			if err := os.MkdirAll(dir, 0o755); err != nil {
+				return err
+			}
+		}
+		for n, b := range files {
+			if err := os.WriteFile(filepath.Join(v, n), b, 0o600); err != nil {
+				return err
+			}
+		}
+		return nil
+	}
+	swapIn := func() error {
+		if err := os.Remove(tmp); err != nil && !errors.Is(err, fs.ErrNotExist) {
+			return err
+		}
+		if err := os.Symlink(v, tmp); err != nil {
+			return err
+		}
+		return os.Rename(tmp, d.target)
+	}
+	for _, step := range []func() error{swapIn, fill} {
+		if err := locked(step); err != nil {
+			return err
+		}
+	}
+	if d.hasPrev {
+		if err := os.RemoveAll(d.prev); err != nil {
+			return err
+		}
+	}
+	d.prev, d.hasPrev = v, true
+	return nil
+}
+
+// BadFlagNeverSet: the flag that says a previous version is recorded is never set.
+func BadFlagNeverSet(d *D2, files map[string][]byte) error {
+	v := fresh2(d)
+	tmp := d.target + ".new"
+	for _, dir := range []string{d.base, v} {
+		if err := os.MkdirAll(dir, 0o755); err != nil {
+			return err
+		}
+	}
+	for n, b := range files {
+		if err := os.WriteFile(filepath.Join(v, n), b, 0o600); err != nil {
+			return err
+		}
+	}
+	if err := os.Remove(tmp); err != nil && !errors.Is(err, fs.ErrNotExist) {
+		return err
+	}
+	if err := os.Symlink(v, tmp); err != nil {
+		return err
+	}
+	if err := os.Rename(tmp, d.target); err != nil {
+		return err
+	}
+	if d.hasPrev {
+		if err := os.RemoveAll(d.prev); err != nil {
+			return err
+		}
+	}
+	d.prev = v
+	return nil
+}
